@@ -1744,7 +1744,7 @@ package p9
 //@   ensures[C03,C11] @closed-handle-ebadf old(c.closed) != 0 ==> errIs(result1, linux.EBADF) && ncalls("(*Client).sendRecv") == 0
 //@   at (*Client).sendRecv requires[C03,C11,C13] @one-tread-for-the-whole-chunk typeis(arg0, *tread) && unbox(arg0, *tread).fid == c.fid && unbox(arg0, *tread).Offset == uint64(offset) && unbox(arg0, *tread).Count == uint32(len(p)) && typeis(arg1, *rread) && unbox(arg1, *rread).Data == p
 //@   ensures[C11] @one-request old(c.closed) == 0 ==> ncalls("(*Client).sendRecv") == 1
-//@   ensures[C11] @count-is-reply-length result1 == nil ==> result0 == len(rread.Data) && result0 > 0 || len(p) == 0
+//@   ensures[C11] @count-is-reply-length result1 == nil ==> result0 == len(rread.Data) && (result0 > 0 || len(p) == 0)
 //@   ensures[C11] @empty-reply-is-eof old(c.closed) == 0 && ghost("$lasterr", error) == nil && len(rread.Data) == 0 && len(p) > 0 ==> result0 == 0 && result1 == io.EOF
 //@   ensures[C11] @eof-only-for-empty-reply old(c.closed) == 0 && result1 == io.EOF && ghost("$lasterr", error) == nil ==> result0 == 0 && len(p) > 0
 //@ func (*clientFile).writeAt
@@ -1761,3 +1761,33 @@ package p9
 //@   use clientMethod
 //@   requires[C11,C13] @client-invariant-payload-size c.client.payloadSize >= 1
 //@   at chunk requires[C11,C13] @chunks-of-the-payload-size arg0 == c.client.payloadSize && arg2 == p && arg3 == offset
+
+// ---- NewClient: negotiation (C12), payload size (C11, C13) --------------------------
+// Client options are the library's own: they may set the message size (to
+// something above the largest fixed part) and the logger, nothing else.
+//@ functype ClientOpt
+//@   params c
+//@   results err
+//@   modifies c.messageSize, c.log
+//@   ensures err == nil ==> c.messageSize > msgDotLRegistry.largestFixedSize
+
+//@ func roundDown
+//@   ensures[C11,C13] @never-more result <= p
+//@   ensures[C11,C13] @positive-stays-positive p >= 1 ==> result >= 1
+//@   nopanic
+
+//@ func NewClient
+//@   modifies *
+//@   requires[C11,C13] @largest-fixed-part-is-small msgDotLRegistry.largestFixedSize >= 23 && msgDotLRegistry.largestFixedSize < 4096
+//@   requires[C12] forall(n, uint32, googleVersion(n) != "9P2000.L" && googleVersion(n) != "9P2000.u" && googleVersion(n) != "9P2000")
+//@   at (*Client).sendRecv requires[C12] @asks-with-its-msize-and-a-canonical-version typeis(arg0, *tversion) && unbox(arg0, *tversion).MSize == c.messageSize && typeis(arg1, *rversion)
+//@   ensures[C12] @adopts-the-reply-version result1 == nil ==> result0 != nil && result0.version == ghost("$pv.num", uint32)
+//@   ensures[C12] @only-9P2000L-replies-are-accepted result1 == nil ==> ghost("$pv.ok", bool) && ghost("$pv.base", baseVersion) == version9P2000L
+//@   ensures[C12,C13] @adopts-the-reply-msize result1 == nil ==> result0.messageSize == rversion.MSize
+//@   ensures[C11,C13] @payload-fits-the-adopted-msize result1 == nil ==> result0.payloadSize >= 1 && result0.payloadSize <= result0.messageSize - msgDotLRegistry.largestFixedSize
+//@   ensures[C12] @failure-yields-no-client result1 != nil ==> result0 == nil
+//@   loop 0 invariant[C12,C13] c != nil && c.messageSize > msgDotLRegistry.largestFixedSize && c.version == highestSupportedVersion
+//@   loop 0 invariant[C12,C13] msgDotLRegistry.largestFixedSize >= 23 && msgDotLRegistry.largestFixedSize < 4096
+//@   loop 1 invariant[C12,C13] c != nil && c.messageSize > msgDotLRegistry.largestFixedSize && c.payloadSize >= 1 && c.payloadSize <= c.messageSize - msgDotLRegistry.largestFixedSize
+//@   loop 1 invariant[C12,C13] msgDotLRegistry.largestFixedSize >= 23 && msgDotLRegistry.largestFixedSize < 4096 && requested <= highestSupportedVersion
+//@   loop 1 decreases[C12] int(requested)
